@@ -77,6 +77,9 @@ def make_module(a):
         return M.QuantumChannel(a['d'], a['r'], None, bs, a['method'], return_kind='choi' if a['opt'] else 'kraus', dtype=dt)
     if c == 'SeparableDensityMatrix':
         return M.SeparableDensityMatrix(a['d'], a['r'], None, bs, dtype=dt)
+    if c in ('ABkHermitian', 'ABk2localHermitian'):
+        import torch
+        return getattr(M, c)(a['d'], a['r'], a['opt'], dtype=torch.float32 if a['p32'] else torch.float64)
     raise KeyError(c)
 
 
@@ -209,7 +212,14 @@ def build_event(a, seed):
         return dict(c='same', x=_g(x / m), y=_g(y / m) if x.shape == y.shape else [])
     flat = lambda z: np.asarray(z).reshape(-1)
     prec32 = a['p32']
-    if a['cls'] == 'SeparableDensityMatrix':
+    if a['cls'] in ('ABkHermitian', 'ABk2localHermitian'):
+        dA, dB, k = a['d'], a['r'], a['opt']
+        n = dA * dB ** k
+        x = out_np / max(1.0, float(np.abs(out_np).max()) if np.all(np.isfinite(out_np)) else 1.0)      # Hermiticity and the symmetry are scale invariant
+        C += [dict(c='shape', M=_g(x), rows=n, cols=n), dict(c='hermitian', M=_g(x))]
+        if k == 2:
+            C.append(dict(c='symB', M=_g(x), dA=dA, dB=dB))
+    elif a['cls'] == 'SeparableDensityMatrix':
         dA, dB = a['d'], a['r']
         with torch.no_grad():
             p, A, B = mod.manifold_p().numpy(), mod.manifold_psiA().numpy(), mod.manifold_psiB().numpy()
